@@ -1129,9 +1129,17 @@ func (rr *DNSResourceRecord) encode(data []byte, offset int, opts gopacket.Seria
 
 	switch rr.Type {
 	case DNSTypeA:
-		copy(data[noff+10:], rr.IP.To4())
+		ip4 := rr.IP.To4()
+		if ip4 == nil {
+			return 0, errors.New("DNS A record without an IPv4 address")
+		}
+		copy(data[noff+10:], ip4)
 	case DNSTypeAAAA:
-		copy(data[noff+10:], rr.IP)
+		ip16 := rr.IP.To16()
+		if ip16 == nil {
+			return 0, errors.New("DNS AAAA record without an IP address")
+		}
+		copy(data[noff+10:], ip16)
 	case DNSTypeNS:
 		if _, err = encodeDNSName(rr.NS, rr.rdataMeta(), data, noff+10); err != nil {
 			return 0, err
